@@ -7,13 +7,16 @@ PROP = dict(
     mc=[dict(module="BlobStore", cfg="MC_BlobStore.cfg", tiers=("thorough",)),
         dict(module="MemHandles", cfg="MC_MemHandles.cfg")],
     trace=dict(module="MemHandlesTrace", cfg="MemHandlesTrace.cfg"),
-    trace_alt={"conc": dict(module="MemHandlesConc", cfg="MemHandlesConc.cfg", deque=True, chunk_lines=1500)},
+    trace_alt={"conc": dict(module="MemHandlesConc", cfg="MemHandlesConc.cfg", deque=True, chunk_lines=1500),
+               "storm": dict(module="MemStorm", cfg="MemStorm.cfg")},
     nontrivial=lambda recs: (any(r.get("res") == "evicted" for r in recs) and evictions(recs) >= 1) or
-                            ((recs[0].get("cfg") or {}).get("tracespec") == "conc" and has(recs, "ret", 8)),
+                            ((recs[0].get("cfg") or {}).get("tracespec") == "conc" and has(recs, "ret", 8)) or
+                            ((recs[0].get("cfg") or {}).get("tracespec") == "storm" and sum(1 for r in recs if r.get("ev") == "Round" and not r.get("hasA")) >= 50),
     rule="seeded random histories on a real memory.Store (40-80 store calls over 4 keys + interleaved Read/ReadAt/Write/"
          "WriteAt/Seek/Size on up to 6 handles kept across evictions, deletions and re-creations); non-trivial = at least one "
          "eviction by admission and at least one handle call answered 'evicted'; every fifth trace is CONCURRENT: three goroutines "
          "(create/open/complete/delete + ReadAt/WriteAt/Size on own handles), call and return records, validated for linearizability "
-         "by MemHandlesConc",
+         "by MemHandlesConc; the last traces are STORMS: rounds of real concurrency (eight handles issuing growing WriteAt calls while an "
+         "admission evicts their blob), the state of every old handle and of the accounting checked once per round by MemStorm",
     assumptions=["zero-length reads and negative offsets are answered before the store is consulted (Reading in DESIGN C08)"],
 )
